@@ -191,17 +191,17 @@ Definition raw_of (n : Z) (r : row) : option Z := match zassoc n (r_raw r) with 
 Definition class_ok (s : strat) (r : row) : bool :=
   match classify s (raw_of (s_name s) r) with Ok _ => true | _ => false end.
 
-(* [sq]: does `_bin_data` refuse a one-row population today ("Expected a Series": DataFrame.squeeze() of a 1x1
-   frame is a scalar)?  Read off the live code by the harness on every run. *)
-Definition kind_ok (sq : bool) (nrows : nat) (s : strat) : bool :=
+(* pd.cut refuses bin edges that do not increase, on every call.  (Before fix commit 44312e20 - finding F-R - `_bin_data`
+   also refused every ONE-row population: DataFrame.squeeze() of a 1x1 frame is a scalar.  Repaired: squeeze(axis=1).) *)
+Definition kind_ok (s : strat) : bool :=
   match s_kind s with
   | KMapped => true
-  | KBinned edges _ => increasing edges && negb (sq && Nat.eqb nrows 1)
+  | KBinned edges _ => increasing edges
   end.
 
 (* every registered stratification (used or not) is applied to the whole event population *)
-Definition valid_event (sq : bool) (regs : list strat) (rows : list row) : bool :=
-  forallb (kind_ok sq (length rows)) regs && forallb (fun r => forallb (fun s => class_ok s r) regs) rows.
+Definition valid_event (regs : list strat) (rows : list row) : bool :=
+  forallb kind_ok regs && forallb (fun r => forallb (fun s => class_ok s r) regs) rows.
 
 (* the `<name>_mapped_values` cell of a row, after the cast to the categorical of the non-excluded categories *)
 Definition cat_of (regs : list strat) (n : Z) (r : row) : option cid :=
@@ -263,17 +263,17 @@ Inductive outcome := Accepted | Refused (e : err).
 
 (* ResultsManager.gather_results for one event.  All stratifications are evaluated before the first observation is
    updated (the loop at context.py 281-290 precedes the first `yield`), so a refusal changes nothing. *)
-Definition step (sq : bool) (regs : list strat) (st : state) (ev : event) : state * outcome :=
+Definition step (regs : list strat) (st : state) (ev : event) : state * outcome :=
   if is_nil (e_rows ev) then (st, Accepted)                              (* population.empty: return *)
-  else if negb (valid_event sq regs (e_rows ev)) then (st, Refused EOther)
+  else if negb (valid_event regs (e_rows ev)) then (st, Refused EOther)
   else (map (fun orr => (fst orr, update_one regs ev (fst orr) (snd orr))) st, Accepted).
 
 (* the simulation stops at the first refused event *)
-Fixpoint run (sq : bool) (regs : list strat) (st : state) (evs : list event) : state * outcome :=
+Fixpoint run (regs : list strat) (st : state) (evs : list event) : state * outcome :=
   match evs with
   | [] => (st, Accepted)
-  | ev :: r => match step sq regs st ev with
-               | (st', Accepted) => run sq regs st' r
+  | ev :: r => match step regs st ev with
+               | (st', Accepted) => run regs st' r
                | (st', Refused e) => (st', Refused e)
                end
   end.
@@ -367,11 +367,11 @@ Fixpoint build_obs_checked (rs : list oreq) (os : list obs) : option (list obs) 
   end.
 
 (* number of events accepted before the run stopped *)
-Fixpoint run_count (sq : bool) (regs : list strat) (st : state) (evs : list event) (n : Z) : state * outcome * Z :=
+Fixpoint run_count (regs : list strat) (st : state) (evs : list event) (n : Z) : state * outcome * Z :=
   match evs with
   | [] => (st, Accepted, n)
-  | ev :: r => match step sq regs st ev with
-               | (st', Accepted) => run_count sq regs st' r (n + 1)
+  | ev :: r => match step regs st ev with
+               | (st', Accepted) => run_count regs st' r (n + 1)
                | (st', Refused e) => (st', Refused e, n)
                end
   end.
@@ -380,20 +380,20 @@ Definition wf_row (nf nw np : nat) (regs : list strat) (r : row) : bool :=
   Nat.eqb (length (r_pass r)) nf && Nat.eqb (length (r_w r)) nw && Nat.eqb (length (r_pay r)) np &&
   forallb (fun s => is_some (zassoc (s_name s) (r_raw r))) regs.
 
-(* case = (sq, cfg, stratification requests+codes, observation requests, (#filters, #weight cols, #payload cols),
+(* case = (cfg, stratification requests+codes, observation requests, (#filters, #weight cols, #payload cols),
            post_setup code, results right after post_setup, events, (final code, #events accepted), final results) *)
-Definition sim_case := (bool * config * list (sreq * Z) * list oreq * (nat * nat * nat) * Z * list (Z * ores) *
+Definition sim_case := (config * list (sreq * Z) * list oreq * (nat * nat * nat) * Z * list (Z * ores) *
                         list event * (Z * Z) * list (Z * ores))%type.
 
 Definition check_sim (c : sim_case) : bool :=
-  let '(sq, cfg, qs, ors, (nf, nw, np), post_code, initial, evs, (fcode, naccepted), final) := c in
+  let '(cfg, qs, ors, (nf, nw, np), post_code, initial, evs, (fcode, naccepted), final) := c in
   match build_regs_checked cfg qs [], build_obs_checked ors [] with
   | Some regs, Some os =>
       forallb (fun ev => forallb (wf_row nf nw np regs) (e_rows ev)) evs &&
       match init regs os with
       | Ok st0 =>
           (post_code =? 0) && state_eqb st0 initial &&
-          let '(st, out, n) := run_count sq regs st0 evs 0 in
+          let '(st, out, n) := run_count regs st0 evs 0 in
           (code_of out =? fcode) && (n =? naccepted) && state_eqb st final &&
           (* a refused event is the last one the implementation saw *)
           ((fcode =? 0) || (Z.of_nat (length evs) =? n + 1))
